@@ -677,6 +677,24 @@ func (x *Exec) havocTarget(p *Path, ctx *EvalCtx, target string, ghost bool, fc 
 			a := e.heapName(p, nil, k, srt)
 			e.heapSet(p, k, srt, store(a, base.S, e.fresh("mod", lf.Sort)))
 		}
+	case *EUnary:
+		if t.Op != "*" {
+			ctx.fail("modifies: unsupported target")
+		}
+		if ghost {
+			return
+		}
+		base := ctx.eval(t.X)
+		et := boxElem(base.T)
+		if et == nil || base.K != KScalar {
+			ctx.fail("modifies: %s is not a pointer to a non-struct value", t.X.String())
+		}
+		for _, lf := range e.leaves(et) {
+			k := fieldKey(typeKey(base.T), boxField, lf.Path)
+			srt := arrSort("Int", lf.Sort)
+			a := e.heapName(p, nil, k, srt)
+			e.heapSet(p, k, srt, store(a, base.S, e.fresh("mod", lf.Sort)))
+		}
 	case *EIndex:
 		if s, ok := t.X.(*ESel); ok {
 			base := ctx.eval(s.X)
